@@ -14,11 +14,12 @@ Tie between the Lean model (Model/C04.lean) and the working tree, all parts re-r
  K5 parametric `convert_parametric_circuit` mappers, the angles actually set on the backend circuit inside the real
                parametric estimators (recording proxy), `bind_parameters`, per-call copies of compiled circuits
                vs `qulacsMapper` / `parametricBackendAngles` / `bindAngles` / `Compiled.run`.
- K6 sparse     `get_sparse_matrix` entries (exact), error branches, stim `_pauli_indices`, shared-table histories
+ K6 sparse     `get_sparse_matrix` entries (exact), error branches, stim `_pauli_indices`, histories with results changed in place
                vs `sparseMatrix` / `stimIndices` / `SparseSession.run`.
  N  numeric    all estimator variants x batch shapes x state kinds on random operators / circuits / vectors /
                parametric states vs each other and vs oracle/c04ref.py (independent numpy), tolerance 1e-9·(1+Σ|c|).
- W  witnesses  the three findings of Props/C04.lean replayed on the real code, and the compiled-circuit finding (W4).
+ W  witnesses  the two findings of Props/C04.lean and the compiled-circuit finding (W4) replayed on the real code; the pinned
+               history of the repaired sparse-table defect (W3) must come out right.
  G  forms      generator extensions judged by independent oracles (no model): `get_sparse_matrix` in every `format` and
                call histories across formats; `convert_gate` on every gate kind / index order and the plain gates inside
                parametric circuits; documented rejections; compiled circuits used through their public accessors in
@@ -41,7 +42,7 @@ sys.path.insert(0, os.path.dirname(os.path.dirname(os.path.abspath(__file__))))
 from common import VERIF, Ctx, InfraError  # noqa: E402
 from oracle import c04ref, dense  # noqa: E402
 
-LEAN_TARGETS = ["QuriVerif.Props.C04", "QuriVerif.Driver.C04"]
+LEAN_TARGETS = ["QuriVerif.Props.C04", "QuriVerif.Props.C04Lift", "QuriVerif.Driver.C04"]
 ENTRY = "DriverC04.lean"
 SCALE = 16  # fixed-point denominator of coefficients (Model/C04.lean `scale`)
 UNIT = 1.0 / 32.0  # grid unit of parameter values and linear coefficients' products (exact in binary)
@@ -49,7 +50,6 @@ PN = {1: "X", 2: "Y", 3: "Z"}
 
 K_STOP = "general-estimator.empty-params-StopIteration"
 K_SHORT = "qulacs-vector-parametric.short-params-zero-padded"
-K_SHARED = "sparse.single-qubit-label-returns-shared-table-entry"
 K_COMPILED = "compiled-circuit.gates-added-after-compile-ignored"
 FORMATS = ["csc", "csr", "bsr", "coo", "dok", "dia", "lil"]
 
@@ -1131,7 +1131,7 @@ def k_param(ctx: Ctx):
 
 
 # ---------------------------------------------------------------------------
-# K6  sparse matrices, stim indices, shared table
+# K6  sparse matrices, stim indices, histories with results changed in place by the caller
 # ---------------------------------------------------------------------------
 def sparse_reset(sp, saved):
     for k, (obj, data) in saved.items():
@@ -1189,35 +1189,66 @@ def k_sparse(ctx: Ctx):
                 reals.append(real)
         except ImportError:
             pass
-        # shared-table histories
-        for _ in range(ctx.n(40, 400)):
-            ops, handles, labels = [], [], []
-            for _ in range(rng.randint(1, 6)):
-                if handles and rng.random() < 0.4:
+        # histories in which callers change the matrices they received in place (`m *= k`, `m.data *= k`): every export must
+        # be independent of what callers did with earlier results — each `get` returns the true Pauli matrix at the moment
+        # of the call, and each result afterwards carries exactly the scalings applied to it (no two results, and no result
+        # and the module's table, share storage)
+        for _ in range(ctx.n(60, 600)):
+            ops, handles, labels, kexp, calls = [], [], [], [], []
+            hinp = {"kind": "sparse-mutated-result-history", "calls": calls}
+            for _ in range(rng.randint(1, 7)):
+                if handles and rng.random() < 0.45:
                     i = rng.randrange(len(handles))
                     k = rng.choice([2, -1, 3, 4])
                     ops.append(f"s:{i}:{k}")
-                    handles[i] *= k
+                    try:
+                        if rng.random() < 0.7 or getattr(getattr(handles[i], "data", None), "dtype", None) is None or handles[i].data.dtype.kind != "c":
+                            handles[i] *= k
+                            calls.append(f"r{i} *= {k}")
+                        else:
+                            handles[i].data *= k
+                            calls.append(f"r{i}.data *= {k}")
+                    except Exception as ex:  # noqa: BLE001  (an in-place operation the format does not offer: not applied)
+                        calls.append(f"r{i} *= {k}  # raised {exc_name(ex)}")
+                        ops.pop()
+                        continue
+                    kexp[i] *= k
                 else:
                     n = rng.choice([1, 1, 2, 3])
                     l = rand_label(rng, n, allow_id=False)
                     if n == 1 and rng.random() < 0.7:
                         l = ((0, rng.choice([1, 2, 3])),)
+                    fmt = rng.choice(["csc", "csc", "csc", "csr", "coo", "lil", "dia", "bsr"])
                     ops.append(f"g:{enc_label(l)}:{n}")
-                    handles.append(get_sparse_matrix(real_label(l), n))
+                    calls.append(f"r{len(handles)} = get_sparse_matrix({enc_label(l)}, {n}" + ("" if fmt == "csc" else f", '{fmt}'") + ")")
+                    h = get_sparse_matrix(real_label(l), n) if fmt == "csc" else get_sparse_matrix(real_label(l), n, fmt)
+                    handles.append(h)
                     labels.append((l, n))
+                    kexp.append(1)
+                    a = np.asarray(h.toarray())
+                    t = c04ref.pauli_matrix(l, n)
+                    if a.shape != t.shape or np.abs(a - t).max() > 0:
+                        ctx.witness("sparse-history:result-depends-on-what-callers-did-with-earlier-results",
+                                    "after callers changed matrices they had received in place, get_sparse_matrix returns a matrix that is "
+                                    "not the Pauli matrix of the label (last call of the history)", {"kind": hinp["kind"], "calls": list(calls)},
+                                    {"got": str(a.tolist())[:300], "want": str(t.tolist())[:300]})
             out = []
-            for h, (l, n) in zip(handles, labels):
-                a = np.asarray(h.todense())
+            for idx, (h, (l, n)) in enumerate(zip(handles, labels)):
+                a = np.asarray(h.toarray())
                 t = c04ref.pauli_matrix(l, n)
+                if a.shape != t.shape or np.abs(a - kexp[idx] * t).max() > 0:
+                    ctx.witness("sparse-history:result-depends-on-what-callers-did-with-earlier-results",
+                                f"result r{idx} is not (the scalings applied to it) x (its Pauli matrix): results share storage with each other "
+                                "or with the module's table", {"kind": hinp["kind"], "calls": list(calls)},
+                                {"result": idx, "expected_factor": kexp[idx], "got": str(a.tolist())[:300]})
                 nz = np.abs(t) > 0
                 ratios = a[nz] / t[nz]
                 k = ratios[0]
                 if not np.allclose(ratios, k) or np.abs(a[~nz]).max(initial=0) > 0 or abs(k - round(k.real)) > 1e-12:
                     out.append("not-a-multiple")
                     continue
-                shared = [p for p, (obj, _) in saved.items() if obj is h]
-                out.append(f"shared:{int(shared[0])}:{int(round(k.real))}" if shared else f"fresh:{int(round(k.real))}")
+                table_obj = [p for p, (obj, _) in saved.items() if obj is h]
+                out.append(f"table-object:{int(table_obj[0])}:{int(round(k.real))}" if table_obj else f"fresh:{int(round(k.real))}")
             fac = []
             for p in (1, 2, 3):
                 obj, data = saved[p] if p in saved else saved[[k for k in saved if int(k) == p][0]]
@@ -1227,14 +1258,12 @@ def k_sparse(ctx: Ctx):
             reqs.append("c04hist " + " ; ".join(ops))
             reals.append(real)
             sparse_reset(sp, saved)
-            ctx.count("sparse.history", "clean" if clean else "table-corrupted")
+            ctx.count("sparse.history", "table-untouched" if clean else "table-changed")
     finally:
         sparse_reset(sp, saved)
     resp = ctx.driver(reqs, entry=ENTRY)
     for rq, real, r in zip(reqs, reals, resp):
         ctx.traces += 1
-        if rq.startswith("c04hist"):
-            r = r.rsplit(" clean=", 1)[0]
         ctx.case(rq, nontrivial=not real.startswith("err"), sample={"request": rq[:160], "model": r[:160]} if rq.startswith("c04sparse O") and real.startswith("ok:4") else None)
         if real != r:
             ctx.disagree("sparse", rq, real[:600], r[:600])
@@ -2366,25 +2395,30 @@ def witnesses(ctx: Ctx):
                     "while bind_parameters raises ValueError", inp2, {"parametric": str(got), "zero_padded_oracle": str(padded), "bind": bnd})
     else:
         ctx.disagree("witness:short-params", inp2, f"parametric={got} bind={bnd}", "model: ok [-p0, 0] vs ValueError (Props.C04.parametric_short_vector_witness)")
-    # W3: shared Pauli table
-    saved = {k: (v, v.data.copy()) for k, v in sp._pauli_map.items()}
+    # W3: the history of the repaired defect (fix 60b9f57; Props.C04.sparse_mutated_result_does_not_leak): a one-qubit result
+    # changed in place by the caller must not show up in any later export
+    saved = {k: (v, v.data.copy()) for k, v in sp._pauli_map.items()} if isinstance(getattr(sp, "_pauli_map", None), dict) else {}
+    inp3 = {"kind": "sparse-mutated-result-history", "calls": ["r0 = get_sparse_matrix(X0)", "r0 *= 2", "r1 = get_sparse_matrix(X0 X1)", "r2 = get_sparse_matrix(X0, 1)"]}
     try:
         m = get_sparse_matrix(real_label(((0, 1),)))
-        shared = any(obj is m for obj, _ in saved.values())
         m *= 2
-        xx = np.asarray(get_sparse_matrix(real_label(((0, 1), (1, 1)))).todense())
-        t = c04ref.pauli_matrix(((0, 1), (1, 1)), 2)
-        ratio = xx[0, 3] / t[0, 3]
+        xx = np.asarray(get_sparse_matrix(real_label(((0, 1), (1, 1)))).toarray())
+        x1 = np.asarray(get_sparse_matrix(real_label(((0, 1),)), 1).toarray())
+        bad3 = None
+        if np.abs(xx - c04ref.pauli_matrix(((0, 1), (1, 1)), 2)).max() > 0:
+            bad3 = {"call": "r1", "got": str(xx.tolist())}
+        elif np.abs(x1 - c04ref.pauli_matrix(((0, 1),), 1)).max() > 0:
+            bad3 = {"call": "r2", "got": str(x1.tolist())}
+        elif np.abs(np.asarray(m.toarray()) - 2 * c04ref.pauli_matrix(((0, 1),), 1)).max() > 0:
+            bad3 = {"call": "r0 after the later calls", "got": str(np.asarray(m.toarray()).tolist())}
     except Exception as e:  # noqa: BLE001
-        shared, ratio = False, f"raises {exc_name(e)}"
+        bad3 = {"raises": exc_name(e), "message": str(e)[:200]}
     finally:
-        sparse_reset(sp, saved)
-    inp3 = {"kind": "sparse-shared", "history": ["m = get_sparse_matrix(X0)", "m *= 2", "get_sparse_matrix(X0 X1)"]}
-    if shared and isinstance(ratio, complex) and abs(ratio - 4) < 1e-12:
-        ctx.witness(K_SHARED, "get_sparse_matrix(X0) returns the module's own matrix; after `m *= 2` get_sparse_matrix(X0 X1) is 4·(X⊗X)",
-                    inp3, {"ratio": str(ratio)})
-    else:
-        ctx.disagree("witness:sparse-shared", inp3, f"shared={shared} ratio={ratio}", "model: fresh 4 (Props.C04.sparse_shared_table_witness)")
+        if saved:
+            sparse_reset(sp, saved)
+    if bad3 is not None:
+        ctx.witness("sparse-history:result-depends-on-what-callers-did-with-earlier-results",
+                    "a matrix returned by get_sparse_matrix and then changed in place by its caller shows up in a later export", inp3, bad3)
     # W4: gates added to a compiled circuit after compilation (no Lean counterpart: found by the oracle comparison)
     inp4 = {"kind": "compiled-then-extended", "history": ["c = QuantumCircuit(2); c.add_H_gate(1)", "cc = compile_circuit(c)", "cc.add_X_gate(0)",
                                                            "s = GeneralCircuitQuantumState(2, cc)", "create_qulacs_vector_estimator()(Z0, s)"]}
@@ -2544,10 +2578,10 @@ def run(ctx: Ctx, replay=None) -> int:
         "get_sparse_matrix formats: values (and <psi|M|psi>) are judged, the storage class of the returned matrix is only counted",
         "samplers of quri_parts.qulacs.simulator are not C04's subject (C07/C08/C11)",
     ]
-    mods = ["QuriVerif.Props.C04"]
+    mods = ["QuriVerif.Props.C04", "QuriVerif.Props.C04Lift"]
     ok = ctx.prove(LEAN_TARGETS, mods)
     if ok:
-        names = [f"QV.Props.C04.{n}" for _, n, _ in ctx.count_obligations(mods)]
+        names = [f"QV.{m.split('.', 1)[1]}.{n}" for m, n, _ in ctx.count_obligations(mods)]
         ctx.audit(names, mods + ["QuriVerif.Driver.C04"])
     else:
         drv_ok, out = ctx.lake_build(["QuriVerif.Driver.C04"])
